@@ -10,7 +10,7 @@ RULE = ("seeded scenarios (objective family x box x r x eps x budget x density x
         "distinct = distinct (family, N, r, trial count, first 3 audited coordinates).")
 ASSUMPTIONS = ["objective values finite and |z| <= 1e100", "eps kept inside the floating-point domain eps^N >= 2^-40",
                "arg-max compared with relative tolerance 1e-9 (ties accepted)"]
-SIZES = {"quick": 320, "thorough": 3200}
+SIZES = {"quick": 480, "thorough": 12000}
 
 
 def cases(tier, seed):
@@ -85,7 +85,7 @@ def run_case(scn):
 
 
 def finalize(obs, tier, stats):
-    need = 5000 if tier == "quick" else 100000
+    need = 8000 if tier == "quick" else 500000
     if obs.get("audited", 0) < need:
         return "only %d trials audited (< %d)" % (obs.get("audited", 0), need), {}
     missing = [k for k in ("M_grew", "zstar_improved", "ties", "boundary_chosen", "branch_pos", "branch_neg", "continued_beyond_first_budget") if not obs.get(k)]
